@@ -248,6 +248,16 @@ type pcase struct {
 	Token  string // "": walk the chain from the start; else start from this (corrupted) token
 	Masked bool   // the requests carry a read mask that leaves out the items' key
 	Then   int32  // != 0: every page after the first is requested with this page size instead
+	PT     bool   // the lister's real tokens are base64 of a types.PageToken, and Token does NOT decode as one: it is malformed and must be refused
+}
+
+// decodesAsPageToken: the token format of every paged server here but waste.
+func decodesAsPageToken(tok string) bool {
+	bs, err := base64.StdEncoding.DecodeString(tok)
+	if err != nil {
+		return false
+	}
+	return proto.Unmarshal(bs, &types.PageToken{}) == nil
 }
 
 func limit(size int32) int {
@@ -308,6 +318,10 @@ func walk(l lister, c pcase, fail func(k, m string), tokens map[string]bool) {
 				fail(key("error"), fmt.Sprintf("valid request failed: %v", err))
 			}
 			return // a corrupted token may be rejected
+		}
+		if n == 0 && c.PT {
+			fail(key("malformed-token-accepted"), fmt.Sprintf("the token does not decode as a page token (the server's own tokens are base64 of a types.PageToken) and was answered with a page of %d items and next token %q instead of an error status", len(p.items), p.next))
+			return
 		}
 		if len(p.items) > limit(size) {
 			fail(key("page-too-large"), fmt.Sprintf("page of %d items for page size %d", len(p.items), size))
@@ -496,6 +510,7 @@ func main() {
 					for _, bad := range cs {
 						for _, size := range []int32{0, 2} {
 							c := pcase{Lister: l.name, Ids: ids, Size: size, Token: bad}
+							c.PT = bad != "" && decodesAsPageToken(tok) && !decodesAsPageToken(bad)
 							s.Eval(1)
 							s.Trans(1)
 							walk(l, c, func(k, m string) { s.Fail(k, m, c) }, nil)
